@@ -179,6 +179,8 @@ var solvers = []solverSpec{
 	}},
 }
 
+var procSlots = make(chan struct{}, 14)
+
 type solveResult struct {
 	status  string // unsat sat unknown
 	backend string
@@ -192,7 +194,7 @@ type solveResult struct {
 // variant of the query: an `unsat` answer on it proves the obligation, any
 // other answer on it is ignored.
 func runPortfolio(file, preFile string, timeoutMs int, all bool) solveResult {
-	ctx, cancel := context.WithTimeout(context.Background(), time.Duration(timeoutMs+2000)*time.Millisecond)
+	ctx, cancel := context.WithTimeout(context.Background(), time.Duration(4*timeoutMs+5000)*time.Millisecond)
 	defer cancel()
 	type ans struct {
 		name   string
@@ -218,6 +220,14 @@ func runPortfolio(file, preFile string, timeoutMs int, all bool) solveResult {
 	start := time.Now()
 	launch := func(j job) {
 		go func() {
+			// global cap on concurrently running solver processes
+			select {
+			case procSlots <- struct{}{}:
+			case <-ctx.Done():
+				ch <- ans{j.s.name, "unknown", "cancelled", 0}
+				return
+			}
+			defer func() { <-procSlots }()
 			t0 := time.Now()
 			args := j.s.args(j.file, timeoutMs)
 			cmd := exec.CommandContext(ctx, args[0], args[1:]...)
@@ -257,27 +267,40 @@ func runPortfolio(file, preFile string, timeoutMs int, all bool) solveResult {
 		}
 		return res
 	}
-	first := 1
+	// staged launch: the usual winners first, the rest only if needed
+	var stages [][]job
 	if preFile != "" {
-		first = 2
-	}
-	for _, j := range jobs[:first] {
-		launch(j)
-	}
-	launched := first
-	pending := first
-	stagger := time.NewTimer(1200 * time.Millisecond)
-	defer stagger.Stop()
-	var outs []string
-	launchRest := func() {
-		for _, j := range jobs[launched:] {
-			launch(j)
-			pending++
+		stages = [][]job{
+			{{solvers[0], file, false}, {solvers[2], preFile, true}},
+			{{solvers[0], preFile, true}},
+			{{solvers[1], file, false}, {solvers[2], file, false}, {solvers[1], preFile, true}},
 		}
-		launched = len(jobs)
+	} else {
+		stages = [][]job{
+			{{solvers[0], file, false}},
+			{{solvers[2], file, false}},
+			{{solvers[1], file, false}},
+		}
 	}
-	for pending > 0 {
+	delays := []time.Duration{0, 1500 * time.Millisecond, 4000 * time.Millisecond}
+	pending := 0
+	next := 0
+	var outs []string
+	timer := time.NewTimer(0)
+	defer timer.Stop()
+	for {
 		select {
+		case <-timer.C:
+			if next < len(stages) {
+				for _, j := range stages[next] {
+					launch(j)
+					pending++
+				}
+				next++
+				if next < len(stages) {
+					timer.Reset(delays[next] - delays[next-1])
+				}
+			}
 		case a := <-ch:
 			pending--
 			res.all[a.name] = a.status
@@ -287,13 +310,13 @@ func runPortfolio(file, preFile string, timeoutMs int, all bool) solveResult {
 				return res
 			}
 			outs = append(outs, "["+a.name+"] "+strings.TrimSpace(a.out))
-			if launched < len(jobs) && pending == 0 {
-				launchRest()
+			if pending == 0 && next < len(stages) {
+				// everything launched so far gave up: start the next stage now
+				timer.Reset(0)
 			}
-		case <-stagger.C:
-			if launched < len(jobs) {
-				launchRest()
-			}
+		}
+		if pending == 0 && next >= len(stages) {
+			break
 		}
 	}
 	res.ms = time.Since(start).Milliseconds()
